@@ -9,6 +9,7 @@ from __future__ import annotations
 import ast
 from typing import Dict, List, Optional
 
+from ..absint import Client, Interp
 from ..flow import Flow
 from ..model import AnalysisError, Func, Program, walk_own
 from ..orderings import NotAFormula, eval_order, weak_orderings
@@ -21,10 +22,20 @@ GENERIC_MOD = "windpyutils.generic"
 
 
 def run(prog: Program, rep: Report):
-    f = prog.func("sorted_combinations", GENERIC_MOD)
-    g = prog.func("min_combinations_in_interval_iter_sorted", GENERIC_MOD)
+    f = prog.func_view("sorted_combinations", GENERIC_MOD)        # private helper functions of the module inlined (sa/inline.py)
+    g = prog.func_view("min_combinations_in_interval_iter_sorted", GENERIC_MOD)
     r1_r4_expansion(prog, rep, f)
     r5_scan(prog, rep, g, f)
+
+
+def _heap_fn(prog, f: Func, call: ast.Call) -> str:
+    """external name of the called function, also through a local alias (`heappush = heapq.heappush`, possibly by tuple unpacking)"""
+    if isinstance(call.func, ast.Name):
+        from ..util import iter_stores
+        for t, v, _st in iter_stores(f.node):
+            if isinstance(t, ast.Name) and t.id == call.func.id and v is not None:
+                return prog.external_name(f.mod, v) or ""
+    return ext_name(prog, f, call) or ""
 
 
 def r1_r4_expansion(prog, rep: Report, f: Func):
@@ -74,7 +85,7 @@ def r1_r4_expansion(prog, rep: Report, f: Func):
     loop = loops[0]
     pop = None
     for n in loop.body:
-        if isinstance(n, ast.Assign) and isinstance(n.value, ast.Call) and ext_name(prog, f, n.value) == "heapq.heappop" \
+        if isinstance(n, ast.Assign) and isinstance(n.value, ast.Call) and _heap_fn(prog, f, n.value) == "heapq.heappop" \
                 and isinstance(n.targets[0], ast.Tuple):
             pop = n
     if pop is None:
@@ -112,6 +123,11 @@ def r1_r4_expansion(prog, rep: Report, f: Func):
     ex = fors[0]
     it = ex.iter
     inner = it.args[0] if isinstance(it, ast.Call) and src(it.func) == "enumerate" and it.args else None
+    if isinstance(inner, ast.Name):
+        inner = flow.expand(inner)          # following = elements[offset:]; for i, e in enumerate(following)
+    enum_start = next((k.value for k in it.keywords if k.arg == "start"), None) if isinstance(it, ast.Call) else None
+    if enum_start is None and isinstance(it, ast.Call) and len(it.args) == 2:
+        enum_start = it.args[1]
     if not (isinstance(inner, ast.Subscript) and src(inner.value) == elements and isinstance(inner.slice, ast.Slice)
             and inner.slice.upper is None and inner.slice.step is None and isinstance(ex.target, ast.Tuple)):
         rep.unrec("C17.R2", f, "expansion", f"the expansion does not enumerate a suffix slice of {elements}: `{src(it)}`")
@@ -156,21 +172,34 @@ def r1_r4_expansion(prog, rep: Report, f: Func):
               f"the suffix `{src(inner)}` does not start at (last index of the popped combination) + 1: normal form {start}",
               scenario="starting at the last index repeats an element inside a combination; starting later skips combinations "
                        "(e.g. (a, b) is never produced)", line=inner.lineno)
-    pushes = [c for c in ast.walk(ex) if isinstance(c, ast.Call) and ext_name(prog, f, c) == "heapq.heappush"]
-    if len(pushes) != 1 or len(pushes[0].args) != 2 or not isinstance(pushes[0].args[1], ast.Tuple):
+    pushes = [c for c in ast.walk(ex) if isinstance(c, ast.Call) and _heap_fn(prog, f, c) == "heapq.heappush"]
+    pushed = flow.expand(pushes[0].args[1]) if len(pushes) == 1 and len(pushes[0].args) == 2 and isinstance(pushes[0].args[1], ast.Name) \
+        else (pushes[0].args[1] if len(pushes) == 1 and len(pushes[0].args) == 2 else None)
+    if not isinstance(pushed, ast.Tuple):
         rep.unrec("C17.R2", f, "push", "expected one heappush of a tuple per extension")
         return
-    ent = pushes[0].args[1].elts
+    ent = pushed.elts
     if len(ent) != layout["arity"]:
         rep.viol("C17.R4", f, "layout:push", f"pushed entries have {len(ent)} components, seeds have {layout['arity']}",
                  scenario="pop unpacks entries of different shapes")
         return
     rep.ok("C17.R4", f, "layout:push", "pushed entries have the layout of the seeds")
     child = flow.expand(ent[layout["comb"]])
-    child_ok = isinstance(child, ast.BinOp) and isinstance(child.op, ast.Add) and src(child.left) == comb_v and src(child.right) == f"({e_v},)"
+    child_ok = (isinstance(child, ast.BinOp) and isinstance(child.op, ast.Add) and src(child.left) == comb_v and src(child.right) == f"({e_v},)") \
+        or (isinstance(child, ast.Tuple) and len(child.elts) == 2 and isinstance(child.elts[0], ast.Starred)
+            and src(child.elts[0].value) == comb_v and src(child.elts[1]) == e_v)        # (*comb, e)
     rep.check("C17.R2", f, "child", child_ok, f"child = {comb_v} + ({e_v},)", f"the pushed combination `{src(child)}` is not parent + (e,)",
               scenario="combinations are not index-ordered tuples extending their prefix")
     cidx = lin(ent[layout["index"]])
+    if cidx is not None and enum_start is not None:
+        # enumerate(..., start=S): the loop variable is S + position
+        s_lin = lin(enum_start)
+        if s_lin is None:
+            cidx = None
+        else:
+            coeff = cidx.get("p", 0)
+            for k_, v_ in s_lin.items():
+                cidx[k_] = cidx.get(k_, 0) + coeff * v_
     rep.check("C17.R2", f, "child-index", cidx is not None and start is not None and _norm_lin(cidx) == _norm_lin({**start, "p": 1}),
               f"child index = slice start + position: `{src(ent[layout['index']])}`",
               f"the index recorded for the child `{src(ent[layout['index']])}` is not (slice start + position in the slice): normal form {cidx}",
@@ -187,7 +216,7 @@ def r1_r4_expansion(prog, rep: Report, f: Func):
     other = []
     for n in walk_own(f.node):
         if isinstance(n, ast.Call) and any(isinstance(a, ast.Name) and a.id == q for a in n.args) and \
-                not (ext_name(prog, f, n) or "").startswith("heapq."):
+                not (_heap_fn(prog, f, n) or "").startswith("heapq."):
             other.append(src(n))
         if isinstance(n, ast.Call) and isinstance(n.func, ast.Attribute) and isinstance(n.func.value, ast.Name) and n.func.value.id == q:
             other.append(src(n))
@@ -197,13 +226,67 @@ def r1_r4_expansion(prog, rep: Report, f: Func):
               f"the queue is also accessed by {other[:2]}", scenario="entries are removed or reordered outside the heap discipline")
 
 
+def _is_score_sum_key(g: Func, key, scores: str) -> bool:
+    """the key handed to sorted_combinations is the exact sum of the scores of the indices: `lambda x: sum(scores[i] for i in x)`
+    or a nested function that adds scores[i] over its parameter with + and returns the total"""
+    if isinstance(key, ast.Lambda):
+        b = key.body
+        return isinstance(b, ast.Call) and isinstance(b.func, ast.Name) and b.func.id == "sum" and len(b.args) == 1 \
+            and isinstance(b.args[0], (ast.GeneratorExp, ast.ListComp)) and len(b.args[0].generators) == 1 and not b.args[0].generators[0].ifs \
+            and key.args.args and src(b.args[0].generators[0].iter) == key.args.args[0].arg \
+            and isinstance(b.args[0].elt, ast.Subscript) and src(b.args[0].elt.value) == scores \
+            and src(b.args[0].elt.slice) == src(b.args[0].generators[0].target)
+    if isinstance(key, ast.Name) and key.id in g.nested:
+        h = g.nested[key.id]
+        body = [st for st in h.node.body if not (isinstance(st, ast.Expr) and isinstance(st.value, ast.Constant))]
+        if len(body) == 3 and isinstance(body[0], ast.Assign) and isinstance(body[0].targets[0], ast.Name) and const_value(body[0].value) == 0 \
+                and isinstance(body[1], ast.For) and len(h.params) == 1 and src(body[1].iter) == h.params[0] and len(body[1].body) == 1 \
+                and isinstance(body[2], ast.Return) and src(body[2].value) == body[0].targets[0].id:
+            tot = body[0].targets[0].id
+            st = body[1].body[0]
+            return isinstance(st, ast.AugAssign) and isinstance(st.op, ast.Add) and src(st.target) == tot \
+                and isinstance(st.value, ast.Subscript) and src(st.value.value) == scores and src(st.value.slice) == src(body[1].target)
+    return False
+
+
+class _ScanStep(Client):
+    """one step of the scan under a fixed ordering of (score, i_start, i_end, best) and a fixed found/not-found:
+    state = True once the current combination was appended to the result"""
+
+    def __init__(self, flow, env, term, res):
+        self.flow, self.env, self.term, self.res = flow, env, term, res
+        self.undecided: List[str] = []
+
+    def should_inline(self, func, call, ctx):
+        return False
+
+    def refine(self, test, state, ctx):
+        try:
+            r = _eval_guard(test, self.env, self.term, self.flow)
+        except NotAFormula as e:
+            self.undecided.append(f"{src(test)} ({e})")
+            return (state,), (state,)
+        return ((state,), ()) if r else ((), (state,))
+
+    def event(self, kind, node, state, ctx):
+        if kind == "call" and isinstance(node, ast.Call) and isinstance(node.func, ast.Attribute) and node.func.attr == "append" \
+                and isinstance(node.func.value, ast.Name) and node.func.value.id == self.res:
+            return (True,)
+        return (state,)
+
+
 def r5_scan(prog, rep: Report, g: Func, f: Func):
-    rep.rule("C17.R5", "interval scan guards by ordering abstraction over a non-decreasing stream: the scan stops only when no current or "
-             "later score can belong to the result (score >= i_end, or a minimum was found and score > minimum), and while it goes "
-             "on it accepts exactly the scores in [i_start, i_end) equal to the minimum; it "
-             "feeds sorted_combinations with range(len(elements)), the sum of the scores as key, and yield_key=True", floor=3)
+    rep.rule("C17.R5", "interval scan, one step at a time, for every weak ordering of (score, i_start, i_end, best) over a "
+             "non-decreasing stream: the step stops the scan only when no current or later score can belong to the result "
+             "(score >= i_end, or a minimum was found and score > minimum), and when it goes on it appends the combination exactly "
+             "if its score is in [i_start, i_end) and equals the minimum (path analysis of the loop body, whatever way its tests are "
+             "arranged); the scan is fed by sorted_combinations(range(len(elements)), exact sum of the scores, yield_key=True) and "
+             "is the only producer of the result", floor=3)
+    from ..flow import Flow
+    from ..resolve import Scope
     rep.fn(g)
     elements, scores, a, b = g.params[:4]
+    flow = Flow(g.node)
     loops = [n for n in g.node.body if isinstance(n, ast.For)]
     if len(loops) != 1 or not isinstance(loops[0].target, ast.Tuple):
         rep.unrec("C17.R5", g, "scan", "scan loop not found")
@@ -211,28 +294,29 @@ def r5_scan(prog, rep: Report, g: Func, f: Func):
     lp = loops[0]
     comb_v, s_v = (src(x) for x in lp.target.elts)
     call = lp.iter
-    ok_call = isinstance(call, ast.Call) and src(call.func) == f.name and len(call.args) >= 2 \
-        and src(call.args[0]) == f"range(len({elements}))" and isinstance(call.args[1], ast.Lambda) \
-        and isinstance(call.args[1].body, ast.Call) and isinstance(call.args[1].body.func, ast.Name) and call.args[1].body.func.id == "sum" \
-        and f"{scores}[" in src(call.args[1].body) \
-        and any(k.arg == "yield_key" and const_value(k.value) is True for k in call.keywords)
-    rep.check("C17.R5", g, "feeds", ok_call, "sorted_combinations(range(len(elements)), builtin sum of scores, yield_key=True)",
-              f"the scan is not fed by sorted_combinations over all element indices keyed by the exact (builtin sum) score sum: `{src(call)[:160]}`",
+    ok_call = False
+    if isinstance(call, ast.Call) and src(call.func) == f.name and len(call.args) >= 2:
+        a0 = flow.expand(call.args[0]) if isinstance(call.args[0], ast.Name) else call.args[0]
+        ok_call = src(a0) == f"range(len({elements}))" and _is_score_sum_key(g, call.args[1], scores) \
+            and any(k.arg == "yield_key" and const_value(k.value) is True for k in call.keywords)
+    rep.check("C17.R5", g, "feeds", ok_call, "sorted_combinations(range(len(elements)), exact sum of the scores, yield_key=True)",
+              f"the scan is not fed by sorted_combinations over all element indices keyed by the exact (builtin +) score sum: `{src(call)[:160]}`",
               scenario="the stream is not ordered by score sum, so the first score in the interval is not the minimum")
     res = None
     for n in g.node.body:
         if isinstance(n, ast.Assign) and isinstance(n.value, ast.List) and not n.value.elts and isinstance(n.targets[0], ast.Name):
             res = n.targets[0].id
-    brk = [n for n in lp.body if isinstance(n, ast.If) and any(isinstance(x, ast.Break) for x in n.body)]
-    acc = [n for n in lp.body if isinstance(n, ast.If) and any(isinstance(x, ast.Call) and isinstance(x.func, ast.Attribute)
-                                                              and x.func.attr == "append" for x in ast.walk(n))]
-    if len(brk) != 1 or len(acc) != 1 or res is None:
-        rep.unrec("C17.R5", g, "guards", "break / accept tests not found")
+    if res is None:
+        rep.unrec("C17.R5", g, "guards", "result accumulator not found")
         return
-    order_ok = lp.body.index(brk[0]) < lp.body.index(acc[0])
     # the scan is the only producer of the result: every return hands back the accumulator, after the loop
-    others = [r for r in returns_of(g.node) if not (r.value is not None and src(r.value) == res and r in g.node.body
-                                                    and g.node.body.index(r) > g.node.body.index(lp))]
+    def _own(r):
+        p_ = getattr(r, "_parent", None)
+        while p_ is not None and not isinstance(p_, (ast.FunctionDef, ast.AsyncFunctionDef, ast.Lambda)):
+            p_ = getattr(p_, "_parent", None)
+        return p_ is g.node
+    others = [r for r in ast.walk(g.node) if isinstance(r, ast.Return) and _own(r)
+              and not (r.value is not None and src(r.value) == res and r in g.node.body and g.node.body.index(r) > g.node.body.index(lp))]
     if others:
         rep.unrec("C17.R5", g, "single-producer", f"`{src(others[0])}` produces a result without the scan of the sorted stream: "
                   "whether it equals what the scan would return is a value-level question this check cannot decide",
@@ -240,7 +324,7 @@ def r5_scan(prog, rep: Report, g: Func, f: Func):
     else:
         rep.ok("C17.R5", g, "single-producer", f"the only return is `return {res}` after the scan")
 
-    def mk_term(found: bool):
+    def mk_term(found: bool, env):
         def term(x):
             t = src(x)
             if t == f"{res}[-1][1]" or t == f"{res}[0][1]":
@@ -251,56 +335,84 @@ def r5_scan(prog, rep: Report, g: Func, f: Func):
                 return 0
             return None
         return term
-    bad_b, bad_a = [], []
+    bad_b, bad_a, undecided = [], [], []
     n_eval = 0
-    # Semantics of one step of the scan over a non-decreasing stream (found => best <= score, best in [i_start, i_end)):
-    #   stopping is safe   iff no current or later score can belong to the result:  i_end <= score, or found and best < score
-    #   when not stopping, the score must be appended  iff  i_start <= score < i_end and (not found or score == best)
-    # (stopping is never *required*: the stream is finite). Any guard pair satisfying both is behaviourally exact.
-    try:
-        for found in (False, True):
-            for env in weak_orderings([s_v, a, b, "best"]):
-                if found and not (env[a] <= env["best"] < env[b] and env["best"] <= env[s_v]):
+    sc = Scope(prog, g, None)
+    for found in (False, True):
+        for env in weak_orderings([s_v, a, b, "best"]):
+            if found and not (env[a] <= env["best"] < env[b] and env["best"] <= env[s_v]):
+                continue
+            if not found and env["best"] != 0:
+                continue
+            n_eval += 1
+            env2 = dict(env)
+            env2["$found"] = found
+            env2["$res"] = res
+            client = _ScanStep(flow, env2, mk_term(found, env), res)
+            it = Interp(prog, client)
+            it.stack.append((g, None))
+            it.yield_handlers.append(None)
+            ex = it.block(lp.body, {False}, sc)
+            if client.undecided or it.unrecognised:
+                undecided += client.undecided + it.unrecognised
+                continue
+            stop = bool(ex.brk or ex.ret)
+            goes_on = ex.normal | ex.cont
+            if stop and goes_on:
+                undecided.append("a step both stops and goes on for one ordering")
+                continue
+            safe = env[b] <= env[s_v] or (found and env["best"] < env[s_v])
+            if stop and not safe:
+                bad_b.append({"found": found, **env})
+            if not stop:
+                got_a = any(goes_on) and all(goes_on) if goes_on else False
+                if goes_on and len(set(goes_on)) > 1:
+                    undecided.append("a step both appends and does not append for one ordering")
                     continue
-                if not found and env["best"] != 0:
-                    continue
-                n_eval += 1
-                term = mk_term(found)
-                stop = _eval_guard(brk[0].test, env, term)
-                safe = env[b] <= env[s_v] or (found and env["best"] < env[s_v])
-                if stop and not safe:
-                    bad_b.append({"found": found, **env})
-                if not stop:
-                    got_a = _eval_guard(acc[0].test, env, term)
-                    want_a = env[a] <= env[s_v] < env[b] and (not found or env[s_v] == env["best"])
-                    if got_a != want_a:
-                        bad_a.append({"found": found, **env})
-    except NotAFormula as e:
-        rep.unrec("C17.R5", g, "guards", f"guards are not comparison formulas over (score, i_start, i_end, best): {e}")
-        return
+                want_a = env[a] <= env[s_v] < env[b] and (not found or env[s_v] == env["best"])
+                if got_a != want_a:
+                    bad_a.append({"found": found, **env})
     rep.count("orderings_evaluated", n_eval)
-    rep.check("C17.R5", g, "stop", not bad_b and order_ok, f"`{src(brk[0].test)}` stops only past the interval / past the minimal score",
-              f"the stop test `{src(brk[0].test)}` ends the scan while the current score still belongs to the result, for {bad_b[:1]}",
+    if undecided:
+        rep.unrec("C17.R5", g, "guards", f"the tests of the scan step are not comparison formulas over (score, i_start, i_end, best): "
+                  f"{sorted(set(undecided))[:2]}")
+        return
+    rep.check("C17.R5", g, "stop", not bad_b, "a step stops the scan only past the interval / past the minimal score",
+              f"a step of the scan ends it while the current score still belongs to the result, for {bad_b[:1]}",
               witness=bad_b[:4], scenario="ties with the minimal score are cut off, or combinations with a larger sum are returned too",
-              line=brk[0].lineno)
-    rep.check("C17.R5", g, "accept", not bad_a, f"when the scan goes on, `{src(acc[0].test)}` accepts exactly the scores in [i_start, i_end) equal to the minimum",
-              f"with the scan not stopped, the accept test `{src(acc[0].test)}` differs from `i_start <= score < i_end and (not found or score == best)` for {bad_a[:1]}", witness=bad_a[:4],
-              scenario="a combination whose sum equals i_end is returned, or one equal to i_start is not", line=acc[0].lineno)
-    app = [x for x in ast.walk(acc[0]) if isinstance(x, ast.Call) and isinstance(x.func, ast.Attribute) and x.func.attr == "append"]
-    ok_app = len(app) == 1 and isinstance(app[0].args[0], ast.Tuple) and len(app[0].args[0].elts) == 2 \
-        and src(app[0].args[0].elts[1]) == s_v and isinstance(app[0].args[0].elts[0], ast.ListComp) \
-        and src(app[0].args[0].elts[0].generators[0].iter) == comb_v and f"{elements}[" in src(app[0].args[0].elts[0].elt)
+              line=lp.lineno)
+    rep.check("C17.R5", g, "accept", not bad_a, "a step that goes on appends exactly the scores in [i_start, i_end) equal to the minimum",
+              f"a step that does not stop the scan appends / skips wrongly: it should append iff `i_start <= score < i_end and "
+              f"(not found or score == best)`, for {bad_a[:1]}", witness=bad_a[:4],
+              scenario="a combination whose sum equals i_end is returned, or one equal to i_start is not", line=lp.lineno)
+    app = [x for x in ast.walk(lp) if isinstance(x, ast.Call) and isinstance(x.func, ast.Attribute) and x.func.attr == "append"
+           and isinstance(x.func.value, ast.Name) and x.func.value.id == res]
+    ok_app = False
+    if len(app) == 1 and isinstance(app[0].args[0], ast.Tuple) and len(app[0].args[0].elts) == 2 and src(app[0].args[0].elts[1]) == s_v:
+        sel = app[0].args[0].elts[0]
+        if isinstance(sel, ast.Name):
+            from ..util import comprehension_of
+            sel = comprehension_of(g.node, sel.id) or flow.expand(sel)
+        ok_app = isinstance(sel, ast.ListComp) and src(sel.generators[0].iter) == comb_v and not sel.generators[0].ifs \
+            and isinstance(sel.elt, ast.Subscript) and src(sel.elt.value) == elements and src(sel.elt.slice) == src(sel.generators[0].target)
     rep.check("C17.R5", g, "result", ok_app, "appends ([elements[i] for i in combination], score)",
               "an accepted combination is not reported as (its elements, its score)",
               scenario="indices are returned instead of elements, or the score of another combination")
 
 
-def _eval_guard(e, env, term) -> bool:
+def _eval_guard(e, env, term, flow=None, depth=0) -> bool:
     if isinstance(e, ast.BoolOp):
-        vals = [_eval_guard(v, env, term) for v in e.values]
+        vals = [_eval_guard(v, env, term, flow, depth) for v in e.values]
         return all(vals) if isinstance(e.op, ast.And) else any(vals)
     if isinstance(e, ast.UnaryOp) and isinstance(e.op, ast.Not):
-        return not _eval_guard(e.operand, env, term)
+        return not _eval_guard(e.operand, env, term, flow, depth)
     if isinstance(e, ast.Name) and term(e) is None:
+        if e.id == env.get("$res"):
+            return bool(env.get("$found"))          # truthiness of the result list: something was found already
+        if flow is not None and depth < 4:
+            ex = flow.expand(e)                     # interval_passed = i_end <= comb_score; if interval_passed or ...
+            if ex is not e:
+                return _eval_guard(ex, env, term, flow, depth + 1)
         raise NotAFormula(f"name {e.id}")
-    return eval_order(e, env, term)
+    env_ = {k: v for k, v in env.items() if not k.startswith("$")}
+    return eval_order(e, env_, term)
